@@ -50,7 +50,7 @@ func (Prop) Assumptions() []string {
 
 var writeKinds = []string{
 	"create", "create", "create_slice", "create_slice", "create_ptr_slice", "create_ptr_slice", "create_batches",
-	"save", "save", "save_slice", "update", "updates_struct", "updates_ptr", "updates_ptr", "updates_map", "updates_self", "update_column", "update_columns",
+	"create_memo", "save_memo", "create_lang", "create_langs", "save", "save", "save_slice", "update", "updates_struct", "updates_ptr", "updates_ptr", "updates_map", "updates_self", "update_column", "update_columns",
 	"delete", "delete_select", "delete_slice", "delete_pet",
 }
 
@@ -495,9 +495,26 @@ func (p Prop) checkClean(c *Case, x *execInfo) (string, string, string) {
 }
 
 // checkAbort applies the oracles of a run whose hook invocation f failed.
-func (p Prop) checkAbort(c *Case, x *execInfo, f *ops.Fault) (string, string, string) {
+func (p Prop) checkAbort(c *Case, x *execInfo, f *ops.Fault, base *execInfo) (string, string, string) {
 	sr := x.sr
 	k := c.kind() + "|" + f.Hook.Model + "." + f.Hook.Hook
+	// a failing hook can only cut the operation short: no hook is invoked more
+	// often than in the fault-free run
+	if base != nil {
+		count := func(hs []ops.HookEvent) map[string]int {
+			m := map[string]int{}
+			for _, h := range hs {
+				m[h.Model+"."+h.Hook]++
+			}
+			return m
+		}
+		was := count(base.sr.Hooks)
+		for name, n := range count(sr.Hooks) {
+			if n > was[name] {
+				return "hook_sequence", k + "|more_often_than_without_fault|" + name, fmt.Sprintf("%s ran %d times in the run where %s.%s#%d failed, %d times in the fault-free run", name, n, f.Hook.Model, f.Hook.Hook, f.Hook.Occ, was[name])
+			}
+		}
+	}
 	if !sr.HookFired {
 		return "nondeterministic", k, "the hook invocation chosen from the fault-free run did not happen in the faulted run"
 	}
@@ -656,7 +673,7 @@ func (p Prop) Run(ci interface{}, focus *core.Violation) *core.Outcome {
 			out.Trouble = "dump: " + x.sr.DumpErr.Error()
 			return out
 		}
-		if cl, key, det := p.checkAbort(c, x, f); cl != "" {
+		if cl, key, det := p.checkAbort(c, x, f, base); cl != "" {
 			if out.Report(&core.Violation{Class: cl, Key: key, Detail: fmt.Sprintf("with [%s]: %s", f, det)}, focus, h) {
 				c.Only = []ops.Fault{*f}
 				return out
